@@ -35,6 +35,7 @@ type impl struct {
 	triedb *trie.NodeDatabase
 	t      *trie.Trie
 	limit  uint16
+	snaps  []*trie.Trie // retained trie objects (op snap): must keep reading their own content
 }
 
 func newImpl() *impl {
@@ -160,6 +161,61 @@ func (m *impl) exec(line string) string {
 		return "n=" + strconv.Itoa(n) + sb.String()
 	case w[0] == "shape" && len(w) == 1:
 		return shapeOf(m.t)
+	case w[0] == "fork" && len(w) == 1:
+		// retain a VALUE COPY of the trie object: it shares every node with the working trie, so it
+		// keeps its content only if insert/delete/tryGet/hash never modify a reachable node in place
+		cp := *m.t
+		m.snaps = append(m.snaps, &cp)
+		return "ok"
+	case w[0] == "snap" && len(w) == 1:
+		// retain the current trie object and continue on a new one opened at its root (what
+		// storageDB.CopyTrie does); both share the NodeDatabase
+		h, err := m.t.Commit(nil)
+		if err != nil {
+			return errClass(err)
+		}
+		old := m.t
+		r := m.reopen(h)
+		if strings.HasPrefix(r, "err") {
+			return r
+		}
+		m.snaps = append(m.snaps, old)
+		return r
+	case (w[0] == "sget" && len(w) == 3) || ((w[0] == "shash" || w[0] == "sshape") && len(w) == 2):
+		i, err := strconv.Atoi(w[1])
+		if err != nil || i < 0 || i >= len(m.snaps) || strconv.Itoa(i) != w[1] {
+			return "bad-op"
+		}
+		st := m.snaps[i]
+		switch w[0] {
+		case "shash":
+			h := st.Hash()
+			return hx.Hex(h[:])
+		case "sshape":
+			return shapeOf(st)
+		}
+		k, ok := arg(2)
+		if !ok {
+			return "bad-op"
+		}
+		v, err := st.TryGet(k)
+		if err != nil {
+			return errClass(err)
+		}
+		if v == nil {
+			return "absent"
+		}
+		return "v=" + hx.Hex(v)
+	case w[0] == "badopen" && len(w) == 2:
+		// a rejected operation: opening an unknown root must fail and leave everything as it was
+		hb, ok := arg(1)
+		if !ok || len(hb) != 32 {
+			return "bad-op"
+		}
+		if _, err := trie.NewTrie(common.BytesToHash(hb), m.triedb); err != nil {
+			return errClass(err)
+		}
+		return "opened"
 	case w[0] == "keccak" && len(w) == 2:
 		x, ok := arg(1)
 		if !ok {
@@ -237,6 +293,15 @@ func main() {
 	}
 	r := hx.NewRng(hx.SeedFromEnv())
 
+	// 1b. deterministic boundary families (before anything random)
+	for _, h := range boundaryHistories(r.Fork(), thorough) {
+		do("new")
+		for _, l := range h {
+			do(l)
+		}
+		dist["boundary-histories"]++
+	}
+
 	// 2. Keccak-256: Lean implementation against common/sha3 on boundary lengths and random inputs
 	for _, n := range []int{0, 1, 2, 31, 32, 33, 55, 56, 134, 135, 136, 137, 138, 271, 272, 273, 407, 408, 409, 1000} {
 		do("keccak " + hx.Hex(r.Bytes(n)))
@@ -270,6 +335,14 @@ func main() {
 			do("iter -")
 			for _, k := range smallKeys {
 				do("get " + hx.Hex(k))
+			}
+			ns := 0
+			for _, l := range seq {
+				if l == "snap" || l == "fork" {
+					do("shash " + strconv.Itoa(ns))
+					do("sget " + strconv.Itoa(ns) + " " + hx.Hex(smallKeys[ns%len(smallKeys)]))
+					ns++
+				}
 			}
 			do("shape")
 			dist["exhaustive-seqs"]++
@@ -323,6 +396,16 @@ func main() {
 		do("iter -")
 		for _, k := range g.pool {
 			do("get " + hx.Hex(k))
+		}
+		for i := 0; i < g.nsnaps; i++ {
+			do("shash " + strconv.Itoa(i))
+			do("sshape " + strconv.Itoa(i))
+			for j, k := range g.pool {
+				if j%3 == i%3 {
+					do("sget " + strconv.Itoa(i) + " " + hx.Hex(k))
+				}
+			}
+			dist["snapshots"]++
 		}
 		for k, v := range g.valDist {
 			dist["val-"+k] += v
